@@ -69,11 +69,11 @@ theorem parse4_v6text (be : Backend) (v : Nat) (hv : v < 2 ^ 128) (rest : Option
   unfold parseIpNetwork
   cases rest with
   | none =>
-    simp only [List.append_nil, Bool.false_eq_true, if_false, splitSlash_none _ hns, hx, hexp]
+    simp only [List.append_nil, Bool.false_eq_true, if_false, splitSlash_none _ hns, secondSlash, parseStrCore, hx, hexp]
     rfl
   | some t =>
     have ht := hrest t rfl
-    simp only [Bool.false_eq_true, if_false, splitSlash_app _ t hns, ht, hx, hexp]
+    simp only [Bool.false_eq_true, if_false, splitSlash_app _ t hns, secondSlash, parseStrCore, ht, hx, hexp]
     rfl
 
 /-! ### the generated tables and the mask predicates, every prefix (complete finite domains) -/
